@@ -258,7 +258,8 @@ def main(argv):
             if key in dep_of:
                 fr['included_as_dependency_of'] = dep_of[key]
             if not os.environ.get('GOVC_NO_DEPS') and not P.get('no_dependency_closure'):
-                for ck_ in sorted(getattr(V, 'used_contracts', ())):
+                clos_ = [k_ for k_ in verified_elsewhere if k_.startswith(key + '$')]      # its function literals
+                for ck_ in sorted(getattr(V, 'used_contracts', ())) + sorted(clos_):
                     rk_ = prog.resolve(ck_)
                     if rk_ in listed_ or rk_ not in verified_elsewhere or rk_ not in prog.funcs or not prog.funcs[rk_]['blocks']:
                         continue
